@@ -359,8 +359,10 @@ def canon_atom(atom: Tuple[str, bool]) -> Tuple[str, bool]:
         if type(op) in _NEG_OPS:
             op = _NEG_OPS[type(op)]()
             pol = not pol
-        if isinstance(left, ast.Constant) and not isinstance(right, ast.Constant) and type(op) in _MIRROR:
+        if type(op) in (ast.Gt, ast.GtE):  # one direction only: a > b is written b < a
             left, right, op = right, left, _MIRROR[type(op)]()
+        elif isinstance(left, ast.Constant) and not isinstance(right, ast.Constant) and type(op) in (ast.Eq,):
+            left, right = right, left
         e = ast.Compare(left=left, ops=[op], comparators=[right])
     out = (norm(e), pol)
     _CANON_CACHE[atom] = out
